@@ -43,12 +43,16 @@ CIQ = "gpytorch/variational/ciq_variational_strategy.py"
 
 # ----------------------------------------------------------------------------- symbolic values
 
+_ALIVE = []
+
+
 class Ten:
     """tensor object; shape = tuple of dimension strings ('n', 'd', '1', '1 + d'); term = Lean expression (atom or
     parenthesised); scalar = 0-d origin (a Lean `α` term) even after unsqueeze"""
 
     def __init__(self, shape, term, scalar=False):
         self.shape, self.term, self.scalar = tuple(shape), term, scalar
+        _ALIVE.append(self)     # Exec.names is keyed by id(): objects must not be collected (and their ids reused) mid-run
 
 
 class DiagView:
